@@ -3,6 +3,7 @@ package c18
 
 import (
 	"fmt"
+	"math/bits"
 	"sort"
 	"testing"
 
@@ -312,6 +313,185 @@ func keys(m algz.DpSolvers[item]) []int {
 	return ks
 }
 
+// ---------------------------------------------------------------- larger instances: independent table-DP oracles instead of brute force
+
+type bigCase struct {
+	Items    []item
+	Limit    int
+	Overflow bool
+	Breaker  int
+	Salt     int
+}
+
+func genBig(t *rapid.T) bigCase {
+	scale := rapid.SampledFrom([]int{8, 40, 300, 1000}).Draw(t, "scale")
+	n := rapid.IntRange(8, 48).Draw(t, "n")
+	its := make([]item, n)
+	sumW, sumV := 0, 0
+	for i := range its {
+		its[i] = item{ID: i + 1, W: rapid.OneOf(rapid.IntRange(0, scale), rapid.IntRange(1, 4), rapid.SampledFrom([]int{255, 256, 257})).Draw(t, "w"),
+			V: rapid.OneOf(rapid.IntRange(1, scale), rapid.IntRange(1, 3), rapid.SampledFrom([]int{127, 128, 255, 256, 65535, 65536})).Draw(t, "v")}
+		sumW += its[i].W
+		sumV += its[i].V
+	}
+	c := bigCase{Items: its, Overflow: rapid.Bool().Draw(t, "overflow"), Breaker: rapid.IntRange(0, 3).Draw(t, "breaker"), Salt: rapid.IntRange(0, 1000).Draw(t, "salt")}
+	c.Limit = rapid.OneOf(rapid.IntRange(0, sumW+2), rapid.IntRange(0, sumW/4+1), rapid.SampledFrom([]int{255, 256, 257, 1023, 1024, 4095, 4096})).Draw(t, "limit")
+	return c
+}
+
+func runBigKnap(c bigCase, r *pb.Rec) error {
+	if len(c.Items) > 64 || c.Limit < 0 || c.Limit > 60000 {
+		return nil
+	}
+	for _, it := range c.Items {
+		if it.W < 0 || it.V < 1 || it.W > 2000 {
+			return nil
+		}
+	}
+	// reference: classic table DP over (item prefix, weight), values only
+	best := make([]int, c.Limit+1)
+	for _, it := range c.Items {
+		for w := c.Limit; w >= it.W; w-- {
+			if v := best[w-it.W] + it.V; v > best[w] {
+				best[w] = v
+			}
+		}
+	}
+	replaced := false
+	items := append([]item(nil), c.Items...)
+	wf, vf := func(it item) int { return it.W }, func(it item) int { return it.V }
+	var sel []item
+	if c.Breaker == 0 {
+		sel = algz.Knapsack(c.Limit, items, wf, vf)
+	} else {
+		sel = algz.Knapsack(c.Limit, items, wf, vf, breaker(c.Breaker, c.Salt, &replaced))
+	}
+	w, v, err := checkSelection(sel, c.Items)
+	if err != nil {
+		return fmt.Errorf("Knapsack(limit %d, %d items, breaker %d): %v", c.Limit, len(c.Items), c.Breaker, err)
+	}
+	if w > c.Limit {
+		return fmt.Errorf("Knapsack(limit %d, %d items): selection weighs %d", c.Limit, len(c.Items), w)
+	}
+	if v != best[c.Limit] {
+		return fmt.Errorf("Knapsack(limit %d, %+v, breaker %d): value %d, optimum by table DP %d (selection %+v)", c.Limit, c.Items, c.Breaker, v, best[c.Limit], sel)
+	}
+	for i := range items {
+		if items[i] != c.Items[i] {
+			return fmt.Errorf("Knapsack modified its input")
+		}
+	}
+	r.ClassIf(c.Limit >= 256, "limit >= 256")
+	r.ClassIf(len(sel) >= 16, "selection of >= 16 items")
+	r.ClassIf(replaced, "tie-breaker replaced")
+	r.NonTrivialIf(len(sel) >= 4)
+	return nil
+}
+
+func runBigDp(c bigCase, r *pb.Rec) error {
+	if len(c.Items) > 64 || c.Limit < 0 || c.Limit > 60000 {
+		return nil
+	}
+	sum := 0
+	for _, it := range c.Items {
+		if it.V < 1 {
+			return nil
+		}
+		sum += it.V
+	}
+	if sum > 4000000 {
+		return nil
+	}
+	// here Limit plays the role of maxValue; the values are the item weights W+1 (smaller totals, denser sums)
+	its := make([]item, len(c.Items))
+	total := 0
+	for i, it := range c.Items {
+		its[i] = item{ID: it.ID, W: it.W, V: it.W + 1}
+		total += it.W + 1
+	}
+	// reference: reachable subset sums (all of them, up to the grand total)
+	reach := make([]bool, total+1)
+	reach[0] = true
+	for _, it := range its {
+		for s := total; s >= it.V; s-- {
+			if reach[s-it.V] {
+				reach[s] = true
+			}
+		}
+	}
+	minOver := -1
+	for s := c.Limit + 1; s <= total; s++ {
+		if reach[s] {
+			minOver = s
+			break
+		}
+	}
+	replaced := false
+	items := append([]item(nil), its...)
+	vf := func(it item) int { return it.V }
+	var solvers algz.DpSolvers[item]
+	if c.Breaker == 0 {
+		solvers = algz.FindDpSolvers(c.Limit, items, vf, c.Overflow)
+	} else {
+		solvers = algz.FindDpSolvers(c.Limit, items, vf, c.Overflow, breaker(c.Breaker, c.Salt, &replaced))
+	}
+	where := fmt.Sprintf("FindDpSolvers(max %d, %+v, overflow %v, breaker %d)", c.Limit, its, c.Overflow, c.Breaker)
+	for key, sel := range solvers {
+		_, v, err := checkSelection(sel, its)
+		if err != nil {
+			return fmt.Errorf("%s: key %d: %v", where, key, err)
+		}
+		if v != key {
+			return fmt.Errorf("%s: key %d holds a selection summing to %d", where, key, v)
+		}
+		// C18 requires the smallest overshoot to be present, not that it is the only key above max: the
+		// implementation keeps the earlier, larger overshoots it met on the way, and every such key is an exact total
+		if key > c.Limit && !c.Overflow {
+			return fmt.Errorf("%s: key %d above max without overflow", where, key)
+		}
+		if key > c.Limit {
+			r.ClassIf(key != minOver, "further overshoot keys kept")
+		}
+	}
+	want, attainable := 0, 0
+	for s := 0; s <= c.Limit && s <= total; s++ {
+		if reach[s] {
+			want = s
+			attainable++
+			if _, ok := solvers[s]; !ok {
+				return fmt.Errorf("%s: attainable total %d is not a key", where, s)
+			}
+		}
+	}
+	if c.Overflow && minOver >= 0 {
+		if _, ok := solvers[minOver]; !ok {
+			return fmt.Errorf("%s: smallest attainable total above max, %d, is not a key", where, minOver)
+		}
+	}
+	if _, got, err := checkSelection(solvers.Best(c.Limit), its); err != nil || got != want {
+		return fmt.Errorf("%s: Best(%d) sums to %d (%v), largest attainable is %d", where, c.Limit, got, err, want)
+	}
+	_, got, err := checkSelection(solvers.BestAllowMinOverflow(c.Limit), its)
+	if err != nil {
+		return fmt.Errorf("%s: BestAllowMinOverflow: %v", where, err)
+	}
+	switch {
+	case c.Limit <= total && reach[c.Limit]:
+		if got != c.Limit {
+			return fmt.Errorf("%s: BestAllowMinOverflow sums to %d although %d is attainable", where, got, c.Limit)
+		}
+	case c.Overflow && minOver >= 0:
+		if got != minOver {
+			return fmt.Errorf("%s: BestAllowMinOverflow sums to %d, smallest overshoot is %d", where, got, minOver)
+		}
+		r.Class("smallest overshoot returned")
+	}
+	r.ClassIf(attainable >= 256, ">= 256 attainable totals")
+	r.ClassIf(replaced, "tie-breaker replaced")
+	r.NonTrivialIf(attainable >= 32)
+	return nil
+}
+
 // ---------------------------------------------------------------- maximal cliques
 
 type graphCase struct {
@@ -490,6 +670,186 @@ func runGraph(c graphCase, r *pb.Rec) error {
 	return nil
 }
 
+// ---------------------------------------------------------------- larger graphs (up to 64 vertices): bitset reference + validity predicate
+
+type bigGraphCase struct {
+	N       int
+	Seed    uint64
+	Density int   // per mille for the random background edges
+	Planted []int // sizes of planted cliques (vertex sets drawn from the seed)
+	Mix     int
+}
+
+func genBigGraph(t *rapid.T) bigGraphCase {
+	// the library's Bron-Kerbosch has no pivoting: a clique of k vertices costs 2^k steps, so planted cliques stay
+	// below 13 vertices except for at most one of 17 or 18 (the size classes above a 16-slot buffer)
+	c := bigGraphCase{N: rapid.OneOf(rapid.IntRange(11, 64), rapid.SampledFrom([]int{31, 32, 33, 34, 63, 64})).Draw(t, "n"), Seed: rapid.Uint64().Draw(t, "seed"),
+		Density: rapid.SampledFrom([]int{0, 20, 60, 120, 200}).Draw(t, "density"),
+		Planted: rapid.SliceOfN(rapid.OneOf(rapid.IntRange(2, 6), rapid.IntRange(2, 12)), 0, 5).Draw(t, "planted"), Mix: rapid.IntRange(0, 4).Draw(t, "mix")}
+	if rapid.IntRange(0, 9).Draw(t, "bigClique") == 0 && c.Density <= 60 {
+		c.Planted = append(c.Planted, rapid.SampledFrom([]int{16, 17, 18}).Draw(t, "bigSize"))
+	}
+	return c
+}
+
+// refCliques: Bron-Kerbosch with pivoting on 64-bit sets (independent of the library's map-based code);
+// it stops counting beyond limit.
+func refCliques(adj []uint64, all uint64, limit int) (out []uint64) {
+	var rec func(r, p, x uint64)
+	rec = func(r, p, x uint64) {
+		if len(out) > limit {
+			return
+		}
+		if p == 0 {
+			if x == 0 {
+				out = append(out, r)
+			}
+			return
+		}
+		pivot := uint(bits.TrailingZeros64(p | x))
+		for q := p &^ adj[pivot]; q != 0; {
+			v := uint(bits.TrailingZeros64(q))
+			q &^= 1 << v
+			rec(r|1<<v, p&adj[v], x&adj[v])
+			p &^= 1 << v
+			x |= 1 << v
+		}
+	}
+	rec(0, all, 0)
+	return
+}
+
+func runBigGraph(c bigGraphCase, r *pb.Rec) error {
+	if c.N < 1 || c.N > 64 || c.Density < 0 || c.Density > 200 || len(c.Planted) > 8 {
+		return nil
+	}
+	for _, k := range c.Planted {
+		if k > 18 {
+			return nil
+		}
+	}
+	st := c.Seed | 1
+	rnd := func(n int) int {
+		st ^= st << 13
+		st ^= st >> 7
+		st ^= st << 17
+		return int(st % uint64(n))
+	}
+	adj := make([]uint64, c.N)
+	link := func(a, b int) {
+		if a != b {
+			adj[a] |= 1 << uint(b)
+			adj[b] |= 1 << uint(a)
+		}
+	}
+	for i := 0; i < c.N; i++ {
+		for j := i + 1; j < c.N; j++ {
+			if rnd(1000) < c.Density {
+				link(i, j)
+			}
+		}
+	}
+	for _, k := range c.Planted {
+		if k < 2 || k > c.N {
+			continue
+		}
+		members := map[int]bool{}
+		for len(members) < k {
+			members[rnd(c.N)] = true
+		}
+		for a := 0; a < c.N; a++ {
+			for b := a + 1; b < c.N; b++ {
+				if members[a] && members[b] {
+					link(a, b)
+				}
+			}
+		}
+	}
+	all := ^uint64(0)
+	if c.N < 64 {
+		all = 1<<uint(c.N) - 1
+	}
+	const limit = 20000
+	want := refCliques(adj, all, limit)
+	if len(want) > limit {
+		r.Class("SKIPPED: more than 20000 maximal cliques")
+		return nil
+	}
+	var g algz.Graph[int]
+	for v := 0; v < c.N; v++ {
+		g.AddNode(v)
+	}
+	k := 0
+	for a := 0; a < c.N; a++ {
+		for b := a + 1; b < c.N; b++ {
+			if adj[a]>>uint(b)&1 == 0 {
+				continue
+			}
+			switch k++; (k + c.Mix) % 3 {
+			case 0:
+				g.AddUndirectedEdge(a, b)
+			case 1:
+				g.AddUndirectedEdge(b, a)
+			default:
+				g.AddEdge(b, a)
+				g.AddEdge(a, b)
+			}
+		}
+	}
+	where := fmt.Sprintf("graph on %d vertices (seed %d, density %d/1000, planted cliques %v)", c.N, c.Seed, c.Density, c.Planted)
+	got := g.GetMaximalCliques()
+	seen := map[uint64]bool{}
+	for _, q := range got {
+		var m uint64
+		for _, v := range q {
+			if v < 0 || v >= c.N || m>>uint(v)&1 == 1 {
+				return fmt.Errorf("%s: returned set %v has a foreign or repeated vertex", where, q)
+			}
+			m |= 1 << uint(v)
+		}
+		// validity predicate: a clique, and no vertex outside is adjacent to all of it
+		common := all
+		for _, v := range q {
+			if (adj[v]|1<<uint(v))&m != m {
+				return fmt.Errorf("%s: returned set %v is not a clique (vertex %d is not adjacent to all others)", where, q, v)
+			}
+			common &= adj[v]
+		}
+		if common&^m != 0 {
+			return fmt.Errorf("%s: returned clique %v is not maximal (vertex %d extends it)", where, q, bits.TrailingZeros64(common&^m))
+		}
+		if seen[m] {
+			return fmt.Errorf("%s: maximal clique %v returned more than once", where, q)
+		}
+		seen[m] = true
+	}
+	for _, m := range want {
+		if !seen[m] {
+			var vs []int
+			for v := 0; v < c.N; v++ {
+				if m>>uint(v)&1 == 1 {
+					vs = append(vs, v)
+				}
+			}
+			return fmt.Errorf("%s: maximal clique %v is missing (%d returned, %d exist)", where, vs, len(got), len(want))
+		}
+	}
+	if len(got) != len(want) {
+		return fmt.Errorf("%s: %d cliques returned, %d exist", where, len(got), len(want))
+	}
+	big := 0
+	for _, m := range want {
+		if bits.OnesCount64(m) > big {
+			big = bits.OnesCount64(m)
+		}
+	}
+	r.ClassIf(c.N > 32, "more than 32 vertices")
+	r.ClassIf(big >= 17, "a maximal clique of >= 17 vertices")
+	r.ClassIf(len(want) >= 200, ">= 200 maximal cliques")
+	r.NonTrivialIf(c.N > 16 && len(want) > c.N/2)
+	return nil
+}
+
 func init() {
 	pb.Register("knapsack", pb.Options{Base: 3000, Required: []string{"tie-breaker replaced", "item heavier than the limit", "empty input"},
 		Rule: "items with unique ids, n <= 12 (thorough 14), weights 0..6, values 1..6 with many ties, limits 0..sum+2, optional deterministic tie-breakers; every case executed 5 times (the code iterates Go maps); oracle: brute force over all 2^n subsets (each id at most once, weight <= limit, value == optimum); non-trivial = n >= 4 with equal values/weights"},
@@ -497,6 +857,15 @@ func init() {
 	pb.Register("dp_solvers", pb.Options{Base: 3000, Required: []string{"tie-breaker replaced", "overflow possible", "smallest overshoot returned", "empty input"},
 		Rule: "FindDpSolvers over items with values 1..6, max 0..sum+2, with/without overflow and tie-breakers, 5 executions per case; oracle: brute force subset sums (every key sums exactly with distinct ids, every attainable total <= max is a key, smallest overshoot is a key when allowed, no key > max otherwise), Best(m) = largest attainable <= m, BestAllowMinOverflow = exact or smallest overshoot; non-trivial = n >= 4 with equal values"},
 		genDp, runDp)
+	pb.Register("knapsack_large", pb.Options{Base: 600, Required: []string{"limit >= 256", "selection of >= 16 items", "tie-breaker replaced"},
+		Rule: "8..48 items, weights 0..1000 and values 1..65536 at four scales with boundary values (255/256/257, 65535/65536), limits up to the total weight and at 255/256/1023/1024/4095/4096; oracle: independent table DP for the optimum value plus the validity predicate (input items, each id once, weight within the limit, value = optimum); non-trivial = at least 4 items selected"},
+		genBig, runBigKnap)
+	pb.Register("dp_solvers_large", pb.Options{Base: 400, Required: []string{">= 256 attainable totals", "smallest overshoot returned"},
+		Rule: "the same generator read as FindDpSolvers instances (value of an item = its weight + 1, max = limit): oracle: independent subset-sum reachability table (every key sums exactly with distinct ids, every attainable total <= max is a key, no key above max unless overflow is allowed, the smallest overshoot present, Best, BestAllowMinOverflow); non-trivial = at least 32 attainable totals"},
+		genBig, runBigDp)
+	pb.Register("maximal_cliques_large", pb.Options{Base: 400, Required: []string{"more than 32 vertices", "a maximal clique of >= 17 vertices", ">= 200 maximal cliques"},
+		Rule: "undirected graphs on 11..64 vertices (31..34 and 63/64 sampled): random background edges of density 0..0.2 plus up to 5 planted cliques of 2..12 vertices and occasionally one of 16..18, edges added through three entry-point mixes; oracle: validity predicate on every returned set (vertices of the graph, a clique, not extendable, returned once) and completeness against an independent bitset Bron-Kerbosch (cases with more than 20000 maximal cliques are skipped and counted); non-trivial = more than 16 vertices and more than n/2 maximal cliques"},
+		genBigGraph, runBigGraph)
 	pb.Register("maximal_cliques", pb.Options{Base: 3000, Required: []string{"edgeless graph", "complete graph / single clique", "queried while being built"},
 		Rule: "undirected simple graphs with 1..10 vertices, each edge drawn with density 0.1..0.9, built with AddNode/AddUndirectedEdge in a drawn order, half of the cases also query GetMaximalCliques at drawn points while the graph is still being built, 5 executions per case; oracle: brute-force set of maximal cliques, each returned exactly once and nothing else; non-trivial = >= 2 overlapping maximal cliques"},
 		genGraph, runGraph)
